@@ -1,15 +1,17 @@
 """C03/C13: C row-batching glue of erasure_code/ec_highlevel_func.c over ASSUMED asm-kernel contracts;
-C12/C03: ec_init_tables_gfni."""
+C12/C03: ec_init_tables_gfni.  Contracts: contracts/ec_glue.h, contracts/stubs_ec_kernels.h."""
 from runner import H
 
 HL = ['erasure_code/ec_highlevel_func.c']
 SRC = 'ec/ec_glue.c'
 
-# isa -> (kernel widths of the dot-product family, of the mad family, has portable fallback)
+# isa -> (widest dot-product kernel the glue may call, widest mad kernel, has portable short-length fallback)
 ISAS = {
     'sse': (6, 6, True), 'avx': (6, 6, True), 'avx2': (6, 6, True), 'avx512': (6, 6, True),
     'avx512_gfni': (6, 6, False), 'avx2_gfni': (3, 5, False),
 }
+BOUNDS = ('1 <= k <= 255, 0 <= rows <= 255 (GF(2^8) domain), len >= 0 any; batching loop closed by contract; output blocks = '
+          'harness arena (block r = arena + r, pairwise distinct); table object >= 65536*STRIDE bytes')
 
 
 def kernels(kind, isa, width):
@@ -18,34 +20,80 @@ def kernels(kind, isa, width):
 
 def trusted(kind, isa, width, stride, base):
     t = ['ASSUMED: gf_%svect_%s_%s computes rows [base,base+%d) per the statement proved for gf_vect_%s_base '
-         '(table stride %d per coefficient; contracts/stubs_ec_kernels.h)' % ('' if n == 1 else str(n), kind, isa, n, kind, stride)
+         '(row i uses table T+i*k*%d and block C[i]; same len,k%s,data; needs len >= vector width; contracts/stubs_ec_kernels.h)'
+         % ('' if n == 1 else str(n), kind, isa, n, kind, stride, ',vec_i' if kind == 'mad' else '')
          for n in range(1, width + 1)]
     if base:
-        t.append('%s: call recorded only here; its own contract is proved in the ec_base family' % base)
+        t.append('%s: only the call and its arguments are recorded here; its own contract is proved in the ec_base family' % base)
     return t
 
 
 HARNESSES = []
 for isa, (wd, wm, fb) in ISAS.items():
     stride = 8 if isa.endswith('gfni') else 32
+    # object_bits=9: the TU keeps all 74 stubbed functions addressed (eg_keep_kernels); dfcc tables scale with 2^object_bits
+    common = dict(also=['C05', 'C15'], timeout=600, object_bits=9, solver='cadical', bounds=BOUNDS,
+                  expect=['postcondition', 'precondition', 'loop_invariant_step', 'loop_decreases', 'assigns'])
     fn = 'ec_encode_data_' + isa
     HARNESSES.append(H(fn, ['C03'], SRC, HL, enforce=fn,
                        replace=kernels('dot_prod', isa, wd) + (['ec_encode_data_base'] if fb else []),
-                       also=['C05', 'C15'], timeout=600,
-                       expect=['postcondition', 'precondition', 'loop_invariant_step', 'loop_decreases'],
-                       bounds='k <= 255, rows <= 255 (GF(2^8) domain); loop closed by contract',
-                       trusted=trusted('dot_prod', isa, wd, stride, 'ec_encode_data_base' if fb else None)))
+                       trusted=trusted('dot_prod', isa, wd, stride, 'ec_encode_data_base' if fb else None), **common))
     fn = 'ec_encode_data_update_' + isa
     HARNESSES.append(H(fn, ['C13'], SRC, HL, enforce=fn,
                        replace=kernels('mad', isa, wm) + (['ec_encode_data_update_base'] if fb else []),
-                       also=['C05', 'C15'], timeout=600,
-                       expect=['postcondition', 'precondition', 'loop_invariant_step', 'loop_decreases'],
-                       bounds='k <= 255, rows <= 255 (GF(2^8) domain); loop closed by contract',
-                       trusted=trusted('mad', isa, wm, stride, 'ec_encode_data_update_base' if fb else None)))
+                       trusted=trusted('mad', isa, wm, stride, 'ec_encode_data_update_base' if fb else None), **common))
 
+# induction that turns "row 0 at offset 0, stride k*STRIDE between consecutive rows" (glue postconditions) into r*k*STRIDE
+HARNESSES.append(H('eg_stride_lemma', ['C03', 'C13'], SRC, HL, timeout=600, solver='cadical', object_bits=9,
+                   expect=['assertion', 'loop_invariant_step', 'loop_decreases'], min_obligations=3,
+                   bounds='rows, k in 0..255',
+                   note='lemma over the glue contracts: offset 0 for row 0 + k*STRIDE per row => offset r*k*STRIDE for row r'))
+
+# kissat: 75 s under full machine load (cadical 100 s, minisat > 300 s); the hard part is x*k == (x-1)*k + k
 HARNESSES.append(H('ec_init_tables_gfni', ['C12', 'C03'], SRC, HL, enforce='ec_init_tables_gfni',
-                   also=['C05', 'C15'], timeout=900,
-                   expect=['postcondition', 'loop_invariant_step', 'loop_decreases'],
-                   bounds='k <= 255, rows <= 255 (GF(2^8) domain); both loops closed by contract'))
+                   also=['C05', 'C15'], timeout=1200, object_bits=9, solver='kissat',
+                   expect=['postcondition', 'loop_invariant_step', 'loop_decreases', 'assertion'],
+                   bounds='0 <= k <= 255, 0 <= rows <= 255 (GF(2^8) domain); both loops closed by contract; '
+                          'a has exactly k*rows bytes, g_tbls exactly 8*k*rows bytes',
+                   trusted=['hook re-anchors the moving pointers (a = a0 + offset, g64 = tbl0 + offset) after asserting that this is '
+                            'the identity: CBMC loses the points-to set of a pointer havocked by a loop contract']))
 
-PROP_TEXT = {}
+_GLUE_ASSUME = [
+    'glue harnesses (ec_encode_data_<isa>, ec_encode_data_update_<isa>): the NASM kernels gf_{1..6}vect_dot_prod_<isa> / gf_{1..6}vect_mad_<isa> '
+    'enter through ASSUMED contracts (contracts/stubs_ec_kernels.h: an N-row kernel produces rows [b,b+N) of its pointer-array argument, row i '
+    'with table T+i*k*STRIDE, STRIDE 32 or 8 for *_gfni, same len/k/vec_i/data, len >= 16/32/64 for sse,avx/avx2/avx512). What is proved is the '
+    'call pattern of the C glue for every ghost row: exactly one kernel call produces it, into block coding[row]; row 0 uses g_tbls and '
+    'consecutive rows use tables exactly k*STRIDE apart (=> g_tbls+row*k*STRIDE by the mechanised induction eg_stride_lemma); every call gets '
+    'the caller\'s len,k,vec_i,data; no slot >= rows is used; below the vector width exactly one ec_encode_data[_update]_base call with '
+    'unchanged arguments; the glue writes nothing itself. The data-level effect of a kernel is not modelled in these harnesses',
+    'glue harnesses: 1 <= k <= 255, 0 <= rows <= 255, len >= 0; the output-block pointer array is harness-built (256 slots, block r = arena + r: '
+    'pairwise distinct blocks whose row is computable from the pointer; the glue never inspects or modifies block pointers); use of a slot >= rows '
+    'is caught by stub preconditions instead of pointer checks; the table object is >= 65536*STRIDE bytes (never dereferenced by the glue), so '
+    '"table block inside g_tbls[0..rows*k*STRIDE)" is a corollary of the row statement, not a pointer check',
+]
+PROP_TEXT = {
+    'C03': {
+        'assumptions': _GLUE_ASSUME + [
+            'ec_init_tables_gfni: 0 <= k,rows <= 255; postcondition stated with the bit-level GF2P8AFFINEQB definition (spec_gf_affine) against the '
+            'polynomial product (spec_gf_mul) for every coefficient position and every multiplicand, little-endian qword layout',
+        ],
+        'not_decided': [
+            'every gf_*vect_dot_prod_<isa> kernel body (NASM): vector tails, alignment 0..63, the "same bytes in every ISA variant" clause',
+            'ec_encode_data dispatcher (ec_multibinary.asm) and the pairing "dispatched initialiser with dispatched encode"',
+            'behaviour of the glue for k > 255 or rows > 255 (outside the GF(2^8) domain; 6*k*32 overflows int only for k > 11 million)',
+        ],
+    },
+    'C13': {
+        'assumptions': _GLUE_ASSUME,
+        'not_decided': [
+            'every gf_*vect_mad_<isa> kernel body (NASM): tail blending, "same bytes in every multiply-accumulate variant"',
+            'ec_encode_data_update dispatcher',
+        ],
+    },
+    'C12': {
+        'assumptions': [
+            'ec_init_tables_gfni: the hook re-anchors the two moving pointers after asserting that the re-anchoring is the identity',
+        ],
+        'not_decided': [],
+    },
+}
